@@ -47,6 +47,45 @@ def main():
     if parsed and parsed[1].split('.')[-1] == '_parse_coordinates':
         print(json.dumps(replay_axes_reader(model), default=str))
         return
+    # end-to-end scenario batteries for the contracts of the conversion / header / export / irregular / cache path
+    if parsed:
+        fn = parsed[1]
+        var = parsed[2] or ''
+        ob = req.get('obligation') or ''
+        bat = None
+        if fn.startswith('HeaderwordInfo.') or fn in ('NumpyConverter.__init__', 'NumpyConverter.write_headers', 'SeismicFileConverter.write_headers',
+                                                       'make_header_seismic_file', 'SeismicFileConverter.get_blank_header_info'):
+            bat = ['headers_numpy', 'headers_segy']
+        elif fn.startswith('SgzConverter.') and 'adv' not in fn:
+            bat = ['export']
+        elif fn == 'SgzReader.gen_trace_header':
+            bat = (['irregular'] if 'irregular' in var else []) + ['headers_numpy', 'cache_histories']
+        elif fn in ('SgzReader.read_variant_headers', 'SgzReader.get_unstructured_mask') or (fn == 'SgzReader.get_trace' and 'irregular' in var):
+            bat = ['irregular', 'cache_histories']
+        elif fn in ('unstructured_io_thread_func', 'InferredGeometry3d.get_range') or 'irregular' in var:
+            bat = ['irregular']
+        elif fn == 'SgzReader.__init__' and '2d' in var:
+            bat = ['two_d']
+        elif fn in ('MinimalInlineReader.read_line',):
+            bat = []
+        if bat:
+            from oracle import batteries as B
+            probs = []
+            for b in bat:
+                probs += getattr(B, b)(model)
+            print(json.dumps({'reproduced': bool(probs), 'detail': probs[:6] if probs else f'batteries {bat} behaved as specified', 'case': {'batteries': bat}}, default=str))
+            return
+    if parsed and parsed[3] is None and parsed[1].split('.')[-1] in ('io_thread_func', 'io_thread_func_2d', 'read_line', 'run', 'run_conversion_loop', 'detect_geometry', '__init__', 'get_blank_header_info'):
+        # contracts without a (rate, blockshape) variant: replay through the SEG-Y route with default settings (both readers)
+        m_ = parsed[1].split('.')[-1]
+        two = m_ == 'io_thread_func_2d'
+        res = replay_segy_route(model, 1.0 if two else 4.0, [1, 16, 2048] if two else [4, 4, 512], two, parsed[2] or '')
+        if not two and not res.get('reproduced'):
+            res2 = replay_segy_route(model, 2.0, [8, 8, 256], False, parsed[2] or '')
+            if res2.get('reproduced'):
+                res = res2
+        print(json.dumps(res, default=str))
+        return
     if not parsed or parsed[3] is None:
         print(json.dumps({'reproduced': None, 'detail': 'no scenario builder for this function'}))
         return
@@ -75,7 +114,7 @@ def main():
     if qual.startswith('SgzCropper.'):
         print(json.dumps(replay_crop(model, shape, rate, b), default=str))
         return
-    if method in ('seismic_file_producer', 'seismic_file_producer_2d', 'io_thread_func', 'io_thread_func_2d') or (method == 'make_header' and 'window' in var):
+    if method in ('seismic_file_producer', 'seismic_file_producer_2d', 'io_thread_func', 'io_thread_func_2d', 'read_line') or (method == 'make_header' and 'window' in var):
         print(json.dumps(replay_segy_route(model, rate, b, two_d, var), default=str))
         return
     if method in ('make_header', 'numpy_producer'):
